@@ -18,7 +18,10 @@ Record hdr := HDR {
   h_iaddrs : list addr;                   (*   addresses used as (claim / trusted) issuers *)
   h_topics : list Z;                      (*   topics *)
   h_keys : list skey;                     (*   signing keys *)
-  h_revq : list rkey                      (*   (identity, topic, data) whose revocation flag is observed *)
+  h_revq : list rkey;                     (*   (identity, topic, data) whose revocation flag is observed *)
+  h_foreign : list (addr * list Z)        (* foreign issuer contracts (not built from the library): address and the
+                                             scheme numbers for which this mock's is_claim_valid returns the unit
+                                             value; for every other scheme it returns a non-unit value or traps *)
 }.
 
 Definition sigrec_eqb (a b : sigrec) : bool :=
@@ -29,8 +32,13 @@ Definition sig_table (tab : list sigrec) (scheme : Z) (pk msg sg : bytes) (rid :
 Definition xdr_table (tab : list (addr * bytes)) (a : addr) : bytes :=
   match aget N.eqb a tab with Some b => b | None => [] end.
 
+(* the mock foreign issuers of the harness answer by scheme number only *)
+Definition foreign_confirms (tab : list (addr * list Z)) (i : addr) (scheme : Z) : bool :=
+  match aget N.eqb i tab with Some l => mem_z scheme l | None => false end.
+
 Definition cfg_of (h : hdr) : cfg :=
   {| c_net := h_net h; c_xdr := xdr_table (h_xdr h); c_sigok := sig_table (h_sigs h);
+     c_other := fun i _ _ scheme _ _ => foreign_confirms (h_foreign h) i scheme;
      c_max_topics := h_max_topics h; c_max_issuers := h_max_issuers h; c_max_keys := h_max_keys h;
      c_max_regs := h_max_regs h; c_max_countries := h_max_countries h |}.
 Definition init_of (h : hdr) : world := init (h_now0 h) (h_ctis h) (h_irss h) (h_idents h) (h_issuers h).
@@ -207,7 +215,7 @@ Definition set_revq (h : hdr) (q : list rkey) : hdr :=
      h_max_regs := h_max_regs h; h_max_countries := h_max_countries h;
      h_ctis := h_ctis h; h_irss := h_irss h; h_idents := h_idents h; h_issuers := h_issuers h;
      h_accounts := h_accounts h; h_iaddrs := h_iaddrs h; h_topics := h_topics h; h_keys := h_keys h;
-     h_revq := q |}.
+     h_revq := q; h_foreign := h_foreign h |}.
 Fixpoint diff_from (h : hdr) (w : world) (l : list item) (i : N) : N :=
   match l with
   | [] => 0%N
@@ -260,6 +268,10 @@ Definition grant_for (i : addr) (k : skey) (t : Z) (x : grant) : bool :=
 Definition granted (g : list grant) (i : addr) (k : skey) (t : Z) : bool := existsb (grant_for i k t) g.
 
 Definition len_is {A} (l : list A) (n : nat) : bool := Nat.eqb (length l) n.
+Fixpoint nodup_by {A} (e : A -> A -> bool) (l : list A) : bool :=
+  match l with [] => true | x :: r => negb (existsb (e x) r) && nodup_by e r end.
+Definition res_nodup {A} (e : A -> A -> bool) (r : res (list A)) : bool :=
+  match r with Ok l => nodup_by e l | Fail => true end.
 
 Section Monitor.
   Variable h : hdr.
@@ -349,14 +361,18 @@ Section Monitor.
                if exact then Bool.eqb (snd av) e else implb (snd av) e)
             (combine (h_accounts h) (vo_verify (o_ver o))).
 
-  (* The reference issuer i confirms the claim (scheme, sig, data) of identity d for topic t exactly
-     when: i is an issuer contract, the signature data has the layout of the scheme, its key has a
+  (* An address that is not a reference issuer confirms a claim exactly when it is one of the
+     foreign issuer contracts of the header and the claim's scheme number is one for which that mock
+     returns the unit value (a non-contract address, a contract without is_claim_valid, a trapping or
+     bool- / error-code-returning issuer never confirms).
+     The reference issuer i confirms the claim (scheme, sig, data) of identity d for topic t exactly
+     when: the signature data has the layout of the scheme, its key has a
      live authorisation for the topic, valid_until lies after the current timestamp, the claim was
      not revoked (and not un-revoked since), and the signature scheme accepts the signature over
      network || issuer || identity || topic || number of nonce bumps so far || data. *)
   Definition confirm_expected (d i : addr) (t scheme : Z) (sg data : bytes) : bool :=
-    mem_a i (h_issuers h)
-    && match extract_sig scheme sg with
+    if negb (mem_a i (h_issuers h)) then foreign_confirms (h_foreign h) i scheme else
+       match extract_sig scheme sg with
        | Fail => false
        | Ok sd =>
            granted (g_grants g) i (sd_pk sd, scheme) t
@@ -421,6 +437,13 @@ Section Monitor.
        | Fail => false
        end.
 
+  (* no list of the registry names an entry twice: a topic list such as [t; t] is never accepted, an
+     issuer is listed once per topic it is trusted for (an issuer listed twice under a topic survives
+     its own removal in the map handed to the verifier) *)
+  Definition registry_nodup (co : cti_obs) : bool :=
+    nodup_by Z.eqb (co_topics co) && nodup_by N.eqb (co_issuers co)
+    && forallb (res_nodup N.eqb) (co_tissuers co) && forallb (res_nodup Z.eqb) (co_itopics co).
+
   (* identity registry: a recovered account has no registered identity *)
   Definition irs_ok (io : irs_obs) : bool :=
     forallb (fun sr : res addr * option addr => negb (is_some (snd sr)) || negb (is_ok (fst sr)))
@@ -443,7 +466,8 @@ Section Monitor.
       (combine (h_issuers h) (o_issuers o)).
 
   Definition mon_state : bool :=
-    shape_ok && verify_ok && issuers_ok && forallb registry_ok (o_ctis o) && forallb irs_ok (o_irss o) && keys_ok.
+    shape_ok && verify_ok && issuers_ok && forallb registry_ok (o_ctis o) && forallb irs_ok (o_irss o) && keys_ok
+    && forallb registry_nodup (o_ctis o).
 End Monitor.
 
 (* ------------------------------------------------------------------------- *)
@@ -645,6 +669,10 @@ Section Calls.
     | Invalidate i d t =>      (* fails only at a non-issuer or when the nonce would leave u32 *)
         Bool.eqb (is_ok out) (is_issuer i && ((if is_ok out then gnonce g i d t else gnonce g i d t + 1) <=? MAXU32))
     | ForceClaim d _ _ _ => Bool.eqb (is_ok out) (mem_a d (h_idents h))
+    | AddClaim d cl =>         (* add_claim accepts only a claim its issuer confirms (asked by the identity itself) *)
+        implb (is_ok out)
+              (mem_a d (h_idents h)
+               && confirm_expected h o g d (cl_issuer cl) (cl_topic cl) (cl_scheme cl) (cl_sig cl) (cl_data cl))
     | _ => true
     end.
 
@@ -676,7 +704,8 @@ Definition empty_obs (h : hdr) : obs :=
 Definition hdr_ok (h : hdr) : bool :=
   negb (is_nil (h_accounts h)) && negb (is_nil (h_topics h)) && negb (is_nil (h_iaddrs h))
   && negb (is_nil (h_ctis h)) && negb (is_nil (h_irss h)) && negb (is_nil (h_idents h))
-  && forallb (fun i => mem_a i (h_iaddrs h)) (h_issuers h).
+  && forallb (fun i => mem_a i (h_iaddrs h)) (h_issuers h)
+  && forallb (fun f : addr * list Z => mem_a (fst f) (h_iaddrs h) && negb (mem_a (fst f) (h_issuers h))) (h_foreign h).
 
 (* the revocation queries of an observation vary from item to item (the harness adds queries as the
    trace goes; every answer is checked against the ghost in keys_ok): not part of the comparison
